@@ -20,6 +20,7 @@ struct Handle { Entity e; size_t world; };
 
 struct ProbeMaster { int64_t v; };
 struct ProbeDep { int64_t v; };
+struct ProbeEvent { int v; };
 
 static void run_script(const std::vector<std::string>& lines) {
     std::vector<std::unique_ptr<World>> worlds;      // null once destroyed
@@ -77,6 +78,23 @@ static void run_script(const std::vector<std::string>& lines) {
                 const bool d2 = em.hasComponent<ProbeDep>(f);
                 printf("R probe create=%d assign=%d\n", d1 ? 1 : 0, d2 ? 1 : 0);
                 em.destroyNow(e); em.destroyNow(f);
+            } else printf("R\n");
+        } else if (op == "evprobe") {
+            // a receiver subscribed through world k's events() hears what is posted through world k, and nothing posted through
+            // any other live world (none of the worlds here was given an event manager: each has its own)
+            size_t k; in >> k;
+            if (k < worlds.size() && worlds[k]) {
+                int heard = 0;
+                auto recv = worlds[k]->events().subscribe<ProbeEvent>([&heard](const ProbeEvent&) { ++heard; });
+                int foreign = 0, live_n = 0;
+                for (size_t j = 0; j < worlds.size(); ++j) {
+                    if (!worlds[j] || j == k) continue;
+                    ++live_n;
+                    worlds[j]->events().post(ProbeEvent{int(j)});
+                }
+                foreign = heard;
+                worlds[k]->events().post(ProbeEvent{int(k)});
+                printf("R evprobe own=%d foreign=%d others=%d\n", heard - foreign, foreign, live_n);
             } else printf("R\n");
         } else if (op == "update") {
             size_t k; in >> k; if (k < worlds.size() && worlds[k]) worlds[k]->update(); printf("R\n");
